@@ -80,6 +80,11 @@ func init() {
 			{Name: "poll callback disconnects later from a goroutine", ExpectRule: "C30.R3", ExpectKey: "DisconnectAll", Edits: []Edit{
 				{File: ag, Old: "\ta.sleepMgr.RunIfPolling(func() {\n\t\t// Disconnect again (still sleeping)\n\t\tif err := a.peerMgr.DisconnectAll(); err != nil {", New: "\tgo func() {\n\t\ttime.Sleep(a.cfg.Sleep.PollDuration / 10)\n\t\tif a.sleepMgr.IsSleeping() {\n\t\t\ta.peerMgr.DisconnectAll()\n\t\t}\n\t}()\n\ta.sleepMgr.RunIfPolling(func() {\n\t\t// Disconnect again (still sleeping)\n\t\tif err := a.peerMgr.DisconnectAll(); err != nil {"},
 			}},
+			{Name: "rewrite: persistence split into snapshot/replace helpers and a persist-if-enabled wrapper; restore in a helper", Edits: []Edit{
+				{File: sl, Old: "\t// Clear queue\n\tm.queue.Clear()\n\n\t// Persist state\n\tif m.cfg.PersistState {\n\t\tif err := m.persistState(); err != nil {\n\t\t\tm.logger.Debug(\"failed to persist sleep state\", logging.KeyError, err)\n\t\t}\n\t}\n", New: "\t// Clear queue\n\tm.queue.Clear()\n\n\tm.c30PersistIfOn()\n"},
+				{File: sl, Old: "\ttmpFile := m.stateFile + \".tmp\"\n\tif err := os.WriteFile(tmpFile, data, 0600); err != nil {\n\t\treturn err\n\t}\n\tif err := os.Rename(tmpFile, m.stateFile); err != nil {\n\t\tos.Remove(tmpFile)\n\t\treturn err\n\t}\n\treturn nil\n}\n", New: "\treturn m.c30ReplaceFile(data)\n}\n\nfunc (m *Manager) c30ReplaceFile(data []byte) error {\n\ttmpFile := m.stateFile + \".tmp\"\n\tif err := os.WriteFile(tmpFile, data, 0600); err != nil {\n\t\treturn err\n\t}\n\tif err := os.Rename(tmpFile, m.stateFile); err != nil {\n\t\tos.Remove(tmpFile)\n\t\treturn err\n\t}\n\treturn nil\n}\n\nfunc (m *Manager) c30PersistIfOn() {\n\tif !m.cfg.PersistState {\n\t\treturn\n\t}\n\tif err := m.persistState(); err != nil {\n\t\tm.logger.Debug(\"failed to persist sleep state\", logging.KeyError, err)\n\t}\n}\n\nfunc (m *Manager) c30Restore(saved PersistedState) {\n\tm.state.Store(saved.State)\n\tm.sleepStartTime = saved.SleepStartTime\n\tm.lastPollTime = saved.LastPollTime\n\tm.commandSeq.Store(saved.CommandSeq)\n}\n"},
+				{File: sl, Old: "\tm.state.Store(state.State)\n\tm.sleepStartTime = state.SleepStartTime\n\tm.lastPollTime = state.LastPollTime\n\tm.commandSeq.Store(state.CommandSeq)\n\n\treturn nil\n", New: "\tm.c30Restore(state)\n\treturn nil\n"},
+			}},
 			{Name: "rewrite: Sleep guard as a switch, explicit unlocks", Edits: []Edit{
 				{File: sl, Old: "\tcurrentState := m.state.Load().(State)\n\tif currentState == StateSleeping || currentState == StatePolling {\n\t\treturn ErrAlreadySleeping\n\t}", New: "\tswitch m.GetState() {\n\tcase StateAwake:\n\tdefault:\n\t\treturn ErrAlreadySleeping\n\t}"},
 			}},
@@ -103,17 +108,18 @@ func init() {
 }
 
 type c30Ctx struct {
-	p        *kit.Program
-	mgr      *types.Named
-	stateF   *types.Var
-	mu       *types.Var
-	cbField  *types.Var // Manager field of type Callbacks
-	fns      []*ssa.Function
-	st       [3]int64 // awake, sleeping, polling
-	names    map[int64]string
-	getters  map[*ssa.Function]bool // small functions that only read the state
-	persistF map[*ssa.Function]bool
-	tables   map[string]map[int64]c30Row // constant package-level tables (map[State]... literals)
+	p           *kit.Program
+	mgr         *types.Named
+	stateF      *types.Var
+	mu          *types.Var
+	cbField     *types.Var // Manager field of type Callbacks
+	fns         []*ssa.Function
+	st          [3]int64 // awake, sleeping, polling
+	names       map[int64]string
+	getters     map[*ssa.Function]bool // small functions that only read the state
+	persistF    map[*ssa.Function]bool
+	persistMemo map[*ssa.Function]bool
+	tables      map[string]map[int64]c30Row // constant package-level tables (map[State]... literals)
 }
 
 // c30Row is one entry of a constant table: a slice of constants or a single constant.
@@ -179,7 +185,7 @@ func (cx *c30Ctx) isMuOp(in ssa.Instruction, names ...string) bool {
 }
 
 func c30NewCtx(p *kit.Program, r *kit.Report) *c30Ctx {
-	cx := &c30Ctx{p: p, names: map[int64]string{}, getters: map[*ssa.Function]bool{}, persistF: map[*ssa.Function]bool{}}
+	cx := &c30Ctx{p: p, names: map[int64]string{}, getters: map[*ssa.Function]bool{}, persistF: map[*ssa.Function]bool{}, persistMemo: map[*ssa.Function]bool{}}
 	cx.mgr = p.NamedType(c30Sleep, "Manager")
 	if !r.Require(cx.mgr != nil, "anchor-unresolved: type internal/sleep.Manager") {
 		return nil
@@ -707,14 +713,7 @@ func runC30(p *kit.Program, r *kit.Report) {
 						continue
 					}
 				}
-				restores := false
-				for _, c2 := range kit.Calls(kit.TopLevel(fn)) {
-					cal := kit.CalleeOf(c2)
-					if (cal.Pkg == "os" && cal.Name == "ReadFile") || (cal.Pkg == "encoding/json" && cal.Name == "Unmarshal") {
-						restores = true
-					}
-				}
-				if restores {
+				if c30Restores(p, kit.TopLevel(fn), 2) {
 					nRestore++
 					continue
 				}
@@ -774,7 +773,7 @@ func runC30(p *kit.Program, r *kit.Report) {
 				return true
 			}
 			if c, isCall := in.(ssa.CallInstruction); isCall {
-				if cal := kit.CalleeOf(c); cal.Static != nil && cx.persists(cal.Static, 2) {
+				if cal := kit.CalleeOf(c); cal.Static != nil && cx.persists(cal.Static, 3) {
 					if _, isDefer := in.(*ssa.Defer); !isDefer {
 						return false // satisfied on this path
 					}
@@ -793,7 +792,7 @@ func runC30(p *kit.Program, r *kit.Report) {
 		}
 		start := s.site
 		if cs, isCall := s.site.(ssa.CallInstruction); isCall {
-			if cal := kit.CalleeOf(cs); cal.Static != nil && cal.Pkg != "sync/atomic" && cx.persists(cal.Static, 2) {
+			if cal := kit.CalleeOf(cs); cal.Static != nil && cal.Pkg != "sync/atomic" && cx.persists(cal.Static, 3) {
 				start = nil // the storing helper persists itself
 			}
 		}
@@ -802,7 +801,7 @@ func runC30(p *kit.Program, r *kit.Report) {
 		if start != nil {
 			kit.Instrs(s.fn, func(in ssa.Instruction) {
 				if d, ok := in.(*ssa.Defer); ok && start != nil {
-					if cal := kit.CalleeOf(d); cal.Static != nil && cx.persists(cal.Static, 2) && kit.Precedes(d, s.site) {
+					if cal := kit.CalleeOf(d); cal.Static != nil && cx.persists(cal.Static, 3) && kit.Precedes(d, s.site) {
 						if _, held := kit.Locks(s.fn).HeldAt(d, cx.mu); held {
 							start = nil
 						}
@@ -961,13 +960,21 @@ func (cx *c30Ctx) persists(fn *ssa.Function, depth int) bool {
 	if cx.persistF[fn] {
 		return true
 	}
-	if depth == 0 || kit.FuncPkgPath(fn) != kit.PkgPath(c30Sleep) {
+	if depth == 0 || kit.FuncPkgPath(fn) != kit.PkgPath(c30Sleep) || len(fn.Blocks) == 0 {
 		return false
 	}
-	// only unconditional-enough wrappers: the callee must call a persist function on every
-	// path from its entry when persistence is enabled
+	if v, ok := cx.persistMemo[fn]; ok {
+		return v
+	}
+	cx.persistMemo[fn] = false // cycles
+	// a wrapper: with persistence enabled every path from its entry calls a persisting function,
+	// except paths that fail before (return a non-nil error, e.g. marshalling failed)
 	ok := true
 	found := false
+	errRes := false
+	if res := fn.Signature.Results(); res.Len() > 0 && kit.IsErrorType(res.At(res.Len()-1).Type()) {
+		errRes = true
+	}
 	cfg := cx.pxConfig(-1)
 	cfg.Visit = func(fr *kit.PxFrame, in ssa.Instruction) bool {
 		if fr.Depth > 0 {
@@ -982,25 +989,46 @@ func (cx *c30Ctx) persists(fn *ssa.Function, depth int) bool {
 		return true
 	}
 	cfg.Return = func(fr *kit.PxFrame, ret *ssa.Return, res []kit.PxVal) {
-		if ret.Block() != fn.Recover {
-			ok = false
+		if ret.Block() == fn.Recover {
+			return
 		}
-	}
-	hasCall := false
-	for _, c := range kit.Calls(fn) {
-		if cal := kit.CalleeOf(c); cal.Static != nil && cal.Static != fn && cx.persistF[cal.Static] {
-			hasCall = true
+		if errRes && len(res) > 0 && res[len(res)-1].NonNilLike() {
+			return // failed before it could persist
 		}
-	}
-	if !hasCall {
-		return false
+		ok = false
 	}
 	args := []kit.PxVal{}
 	if fn.Signature.Recv() != nil {
 		args = append(args, kit.PxS("recv"))
 	}
 	run := kit.PathxExplore(fn, args, cfg)
-	return ok && found && !run.Truncated
+	v := ok && found && !run.Truncated
+	cx.persistMemo[fn] = v
+	return v
+}
+
+// c30Restores: fn reads the persisted state (os.ReadFile / json.Unmarshal), or is a helper all of
+// whose static callers do (the start-up restore split into load + apply).
+func c30Restores(p *kit.Program, fn *ssa.Function, depth int) bool {
+	for _, c := range kit.Calls(fn) {
+		cal := kit.CalleeOf(c)
+		if (cal.Pkg == "os" && cal.Name == "ReadFile") || (cal.Pkg == "encoding/json" && (cal.Name == "Unmarshal" || cal.Name == "NewDecoder")) {
+			return true
+		}
+	}
+	if depth == 0 {
+		return false
+	}
+	callers := p.StaticCallers(fn)
+	if len(callers) == 0 {
+		return false
+	}
+	for _, cs := range callers {
+		if !c30Restores(p, kit.TopLevel(cs.Parent()), depth-1) {
+			return false
+		}
+	}
+	return true
 }
 
 // c30DynamicFuncCall: a call through a function value (callback field, parameter, local).
